@@ -456,7 +456,23 @@ func Directive(optMask int, style int) string {
 		}
 		return "false"
 	}
-	switch style % 4 {
+	switch style % 6 {
+	case 4: // ONE line: everything off, then the subset on (options of a line apply left to right)
+		s := ";;;; optimize: false"
+		for i, o := range optNames {
+			if optMask&(1<<i) != 0 {
+				s += ", " + string(o) + ": true"
+			}
+		}
+		return s + "\n"
+	case 5: // ONE line: everything on, then the complement off
+		s := ";;;;optimize:true"
+		for i, o := range optNames {
+			if optMask&(1<<i) == 0 {
+				s += "," + string(o) + ":false"
+			}
+		}
+		return s + "\n"
 	case 1: // switch everything off, then enable the subset
 		s := ";;;;optimize:false\n"
 		for i, o := range optNames {
